@@ -202,7 +202,7 @@ def _frac_of_factor(s):
     return Fraction(s)
 
 
-@rule("T-UNITS", ["C11"])
+@rule("T-UNITS", ["C11", "C14"])
 def t_units(cx):
     lin = consts.find_consts(cx.f, "LINEAR_UNITS")
     ang = consts.find_consts(cx.f, "ANGULAR_UNITS")
